@@ -68,6 +68,15 @@ CLAIMED["C12"] = ("service", "5/C12, 4.7", 'TLA+/TLC explicit-state model checki
     "Same model and vectors as C11: TLC checks exhaustively (depth <= 2, sampled depth 3) that combined readiness is the conjunction of the inner readiness polls, that readiness errors propagate mapped, that a Pending answer implies every still-pending inner service/future was polled with the fresh waker of that poll, that no inner future is polled after completion, that no stage is invoked twice and that Pending is answered only while an inner poll is pending. The same predicates are evaluated by TLC on runs recorded from the real combinators, with waker identity observed via will_wake.",
     "Trusts TLC and the harness executor; readiness scripts are sticky; actual wake-ups are not observed (the property is stated over who holds the current waker).")
 
+CLAIMED["C07"] = ("server", "5/C07, 4.2",
+    "TLA+ spec Worker.tla (one action = one poll of the ServerWorker future, transcribed branch by branch) model-checked exhaustively by TLC with NEG variants; state-graph paths replayed on the real ServerWorker built in-thread with scripted services under virtual time; per-poll service logs judged by TLC in predicate mode and bound in strict mode (WorkerTrace.tla)",
+    "All readiness scripts (Pending/Ready/Err in every position) of 1..3 services, arrival orders of connections and factory re-creation with pending polls are enumerated by TLC on a transcription of ServerWorker::poll; an edge cover of the model is executed on the real future and TLC checks on the services' own log that a call happens only right after a pass in which every service answered ready, that connections are served in queue order, that only the failing service is re-created and that nothing queued is lost; strict mode additionally shows the real future follows the model poll by poll.",
+    SRV_NOTE)
+CLAIMED["C06"] = ("server", "5/C06, 4.2, 4.3",
+    "TLA+ specs Worker.tla (worker side) and ServerStop.tla (protocol across command loop, accept thread, workers) model-checked by TLC incl. liveness under fairness and NEG variants; worker-side paths replayed deterministically on the real ServerWorker under virtual time and judged by TLC (WorkerTrace.tla); end-to-end scenarios on a real Server (real threads, sockets, OS signals in a child process) recorded with a global sequence number and judged by TLC (ServerStopTrace.tla)",
+    "TLC explores every interleaving of stop commands (handle and signal kinds, repeated), server command-loop steps, accept-thread exit, worker replies, ticks and connection completions (0..3 per worker, 1..2 workers) and checks graceful-waits, no-dispatch-after-completion, signal mapping and, under fairness, that every stop future and the Server future resolve; the worker's reply value/time and shutdown drain are checked on the real worker future for every model path in virtual time; real-thread runs (graceful/forced, timeout, second stop, dropped future, paused, SIGTERM/SIGINT/SIGQUIT) are judged by TLC on recorded events.",
+    SRV_NOTE + " End-to-end runs use real time with generous bounds (forced stop must complete within 1.5 s; rejections are re-run before being believed).")
+
 NOT_YET = "check not built yet in this round; the specification for it is planned in DESIGN.md section 5"
 
 
